@@ -32,6 +32,9 @@ func c13Extras(variant int, withError bool) srcFile {
 	b.WriteString("{length(keys(['k1': 1, 'k2': 2, 'k3': 3]))}{round(2.4)}{floor(1.5)}{ceiling(1.5)}{min(1,2)}{max(1,2)}{strContains('ab','a')}{isNonnull($a)}{hasData()}\n")
 	b.WriteString("{$a|escapeHtml}{$a|escapeUri}{$a|escapeJsString}{$a|truncate:5}{$a|changeNewlineToBr}{$a|insertWordBreaks:4}{$a|json}{$a|noAutoescape}\n")
 	b.WriteString("{msg desc=\"collide\"}{$a.x}{$a.y.x}{$x_1} <b>bold</b> <a href=\"u\">link</a> <a href=\"v\">other</a>{/msg}\n")
+	// a message of more than a kilobyte (and of more than four), then short ones: an id is a function of its own message
+	b.WriteString("{msg desc=\"long\"}" + strings.Repeat("lorem ipsum dolor sit amet ", 45) + "{$a.x}" + strings.Repeat(" consectetur", 20) + "{/msg}{msg desc=\"after the long one\"}short {$a.x}{/msg}\n")
+	b.WriteString("{msg desc=\"longer\"}" + strings.Repeat("sed do eiusmod tempor ", 200) + "<b>{$a.y.x}</b>{/msg}{msg desc=\"after the longer one\"}brief{/msg}{msg desc=\"and another\"}{$x_1} brief{/msg}\n")
 	b.WriteString("{msg desc=\"pl\"}{plural length($a)}{case 0}none{case 1}one {$a.x}{default}{$a.y.x} many{/plural}{/msg}\n")
 	b.WriteString("{call .need}{param p: ['delta': 4, 'alpha': 1, 'charlie': 3, 'bravo': 2] /}{param q: GLOBAL_INT /}{/call}\n")
 	extraTemplates := ""
